@@ -448,8 +448,8 @@ fn run_session(seed: u64, n: u64, long: bool, ev: &mut Evidence) {
 
 pub fn run(args: &Args) -> i32 {
     let started = Instant::now();
-    let sessions = args.tier.pick(3_000u64, 150_000);
-    let long_sessions = args.tier.pick(1u64, 16);
+    let sessions = args.tier.pick(25_000u64, 800_000);
+    let long_sessions = args.tier.pick(2u64, 32);
     let seed = args.seed;
     if let Some(path) = &args.replay {
         let doc: serde_json::Value =
@@ -488,8 +488,8 @@ pub fn run(args: &Args) -> i32 {
         ],
         exhaustive: None,
         floors: vec![
-            ("requests".into(), args.tier.pick(100_000, 5_000_000)),
-            ("results_identified_by_unique_payload".into(), args.tier.pick(50_000, 2_000_000)),
+            ("requests".into(), args.tier.pick(1_500_000, 50_000_000)),
+            ("results_identified_by_unique_payload".into(), args.tier.pick(800_000, 25_000_000)),
             ("txid_wraps_observed".into(), 1),
         ],
         min_classes: 20,
